@@ -273,6 +273,21 @@ pub fn run(ctx: &mut Ctx) {
             }
             rep.count(&format!("variant/{}", vn));
         }
+        // a run of prefix operators means the operators applied one after the other: `!!x` is `!(!(x))`, `---x` is `-(-(-(x)))`
+        if has_run(&t) {
+            let split = split_runs(&t);
+            let ssrc = gen::render(&split, Ws::Pretty, Parens::Minimal, None).text;
+            let out = mon::run1(&ssrc, &binds);
+            rep.eval();
+            rep.count("unary_runs_split");
+            if out.canon_anyerr() != base_out.canon_anyerr() {
+                rep.viol(
+                    "outcome|unary-run-split",
+                    &format!("`{}` gives {} but `{}` gives {}", minimal, base_out.show(), ssrc, out.show()),
+                    json!({"minimal": minimal, "variant": ssrc, "bindings": mon::binds_json(&binds)}),
+                );
+            }
+        }
         // parentheses that disagree with the structure must give the other tree (the oracle compares something)
         if let Some((src2, want2)) = regroup(&t) {
             rep.count("disagreeing_parens");
@@ -308,11 +323,47 @@ pub fn run(ctx: &mut Ctx) {
     });
 }
 
+fn has_run(e: &E) -> bool {
+    let mut found = false;
+    e.visit(&mut |x| {
+        if let E::Un(_, n, _) = x {
+            if *n >= 2 {
+                found = true;
+            }
+        }
+    });
+    found
+}
+
+/// every run of n prefix operators rewritten as n nested, parenthesised single operators
+fn split_runs(e: &E) -> E {
+    e.map_tree(&|x| match x {
+        E::Un(c, n, a) if *n >= 2 => {
+            let mut cur = (**a).clone();
+            for _ in 0..*n {
+                cur = E::Un(*c, 1, Box::new(E::Paren(Box::new(cur))));
+            }
+            Some(cur)
+        }
+        _ => None,
+    })
+}
+
 fn random_env(rng: &mut Rng) -> Vec<(String, CelValue)> {
     let mut b: Vec<(String, CelValue)> = Vec::new();
     for n in ["a", "b", "c", "d", "e"] {
-        let v: CelValue = match rng.below(5) {
+        let v: CelValue = match rng.below(9) {
             0 => rng.range(-5, 5).into(),
+            5 => CelValue::from_uint(rng.below(4) as u64),
+            6 => CelValue::from_string(rng.pick(&["", "s", "0"]).to_string()),
+            7 => {
+                if rng.chance(1, 2) {
+                    CelValue::from_null()
+                } else {
+                    CelValue::from_int(i64::MIN)
+                }
+            }
+            8 => CelValue::from_list(vec![]),
             1 => (rng.range(-4, 4) as f64 / 2.0).into(),
             2 => rng.chance(1, 2).into(),
             3 => CelValue::from_list(vec![rng.range(0, 3).into(), rng.range(0, 3).into()]),
@@ -341,7 +392,7 @@ fn random_tree(rng: &mut Rng, depth: u32) -> E {
         }
         8 => {
             let c = *rng.pick(&['!', '-']);
-            E::Un(c, 1 + rng.below(2), Box::new(random_tree(rng, depth - 1)))
+            E::Un(c, 1 + rng.below(4), Box::new(random_tree(rng, depth - 1)))
         }
         9 | 10 => E::Tern(Box::new(random_tree(rng, depth - 1)), Box::new(random_tree(rng, depth - 1)), Box::new(random_tree(rng, depth - 1))),
         _ => E::List(vec![random_tree(rng, depth - 1), random_tree(rng, depth - 1)]),
